@@ -532,7 +532,14 @@ pub async fn flush_all_batches(connections: &mut [SrtlaConnection], conn_io: &Co
             && let Some(io) = conn_io.get(&conn.conn_id)
             && let Err(e) = send_connection_batch(conn, &io.socket).await
         {
-            warn!("{}: periodic batch flush failed: {}", conn.label, e);
+            // Same contract as the threshold flush: `take_batch` registered the
+            // batch as in flight optimistically, so a failed send must reset the
+            // link or those never-transmitted packets stay counted.
+            warn!(
+                "{}: periodic batch flush failed, marking for recovery: {}",
+                conn.label, e
+            );
+            conn.mark_for_recovery();
         }
     }
 }
